@@ -62,11 +62,15 @@ func (g *c15Gate) serve(c net.Conn) {
 			}
 			g.got[req.IRequestId] = true
 			answer := g.up
+			code := g.code
 			g.mu.Unlock()
 			if !answer {
 				continue
 			}
-			rsp := requestf.ResponsePacket{IVersion: req.IVersion, IRequestId: req.IRequestId}
+			rsp := requestf.ResponsePacket{IVersion: req.IVersion, IRequestId: req.IRequestId, IRet: code}
+			if code != 0 {
+				rsp.SResultDesc = "scripted error reply"
+			}
 			os := codec.NewBuffer()
 			_ = os.WriteSliceInt8(make([]int8, 4))
 			if err := rsp.WriteTo(os); err != nil {
@@ -173,7 +177,21 @@ func (r *c15Run) e2eCall(op *c15Op, last bool) []string {
 	ai, _ := r.idOf(adp)
 	sh := r.sh[ai]
 	probe := expectProbe
-	ok := err == nil
+	// the outcome in the property's terms: was the call ANSWERED (whatever the return code of the answer)?
+	// doInvoke replaces msg.Resp by the received packet exactly when a reply arrived before the deadline.
+	ok := msg.Resp != nil && msg.Resp != &resp
+	if err == nil && !ok {
+		r.fail("failover/call-ok-without-answer", "the call returned no error although no reply was received")
+	}
+	if ok && msg.Resp.IRet != 0 {
+		r.classes["error-code-answer"] = true
+		if probe {
+			r.classes["error-code-probe-answer"] = true
+		}
+		if err == nil {
+			r.fail("failover/error-reply-not-reported", fmt.Sprintf("the server answered with return code %d but the call returned no error", msg.Resp.IRet))
+		}
+	}
 	r.sent = append(r.sent, c15Sent{reqID: msg.Req.IRequestId, eid: sh.eid, ok: ok})
 	r.monSelected(op, before, ai, probe, "")
 	if probe {
@@ -185,7 +203,7 @@ func (r *c15Run) e2eCall(op *c15Op, last bool) []string {
 		sel = fmt.Sprintf("SelProbe %d", ai)
 	}
 	labels := fmt.Sprintf("%s; Out %d %s %s", sel, ai, coqBool(ok), coqBool(probe))
-	op.Txt = fmt.Sprintf("real call -> adapter %d endpoint %d probe=%v ok=%v", ai, sh.eid, probe, ok)
+	op.Txt = fmt.Sprintf("real call -> adapter %d endpoint %d probe=%v answered=%v err=%v", ai, sh.eid, probe, ok, err != nil)
 	if ok && !c15Gates[sh.eid].has(msg.Req.IRequestId) {
 		r.fail("failover/answer-from-another-server", fmt.Sprintf("the call was answered, the selected adapter belongs to endpoint %d, but that server never read request %d", sh.eid, msg.Req.IRequestId))
 	}
@@ -240,6 +258,10 @@ func (r *c15Run) e2eFinish() {
 
 // ---------- histories ----------
 
+var c15Codes = []int64{5, 1, -1, -3, -7, -99, 1000}
+
+func (b *c15B) code(e int, c int64) { b.ops = append(b.ops, c15Op{K: "code", E: e, D: c}) }
+
 func c15E2EGenOne(rng *rand.Rand, i int) c15Case {
 	b := &c15B{rng: rng}
 	n := 1 + rng.Intn(3)
@@ -251,7 +273,7 @@ func c15E2EGenOne(rng *rand.Rand, i int) c15Case {
 	segs := 2 + rng.Intn(3)
 	for k := 0; k < segs; k++ {
 		e := b.ep()
-		switch rng.Intn(7) {
+		switch rng.Intn(8) {
 		case 6: // the registry answer changes (adapters of dropped endpoints are closed; they may still be queued)
 			b.segRefresh()
 			for q := 0; q < len(b.reg)+1; q++ {
@@ -278,6 +300,9 @@ func c15E2EGenOne(rng *rand.Rand, i int) c15Case {
 			if b.coin(0.6) {
 				b.net(e, true)
 				b.up(e, true)
+				if b.coin(0.5) { // the recovered server answers, but with an error code: still an answer
+					b.code(e, c15Codes[rng.Intn(len(c15Codes))])
+				}
 				b.adv(b.pick(1, 30))
 				b.check()
 			}
@@ -303,6 +328,9 @@ func c15E2EGenOne(rng *rand.Rand, i int) c15Case {
 			for _, x := range b.reg {
 				b.net(x, true)
 				b.up(x, true)
+				if b.coin(0.4) {
+					b.code(x, c15Codes[rng.Intn(len(c15Codes))])
+				}
 			}
 			if b.coin(0.6) {
 				for q := 0; q < len(b.reg)+1; q++ {
@@ -316,6 +344,18 @@ func c15E2EGenOne(rng *rand.Rand, i int) c15Case {
 				b.call(0, 0, false)
 			}
 			b.name += "e2e-allblocked "
+		case 5: // ordinary calls answered with an error code are answered calls: never a reason to block
+			b.code(e, c15Codes[rng.Intn(len(c15Codes))])
+			for q := 0; q < 6*len(b.reg); q++ {
+				b.call(0, 0, false)
+			}
+			b.adv(b.pick(5, 61))
+			b.check()
+			b.call(0, 0, false)
+			if b.coin(0.5) {
+				b.code(e, 0)
+			}
+			b.name += fmt.Sprintf("e2e-errcode(%d) ", e)
 		default: // ratio rule: a few failures among successes, 60 s
 			b.up(e, false)
 			for q := 0; q < 2*len(b.reg); q++ {
@@ -376,6 +416,41 @@ func c15E2ECorpus() []c15Case {
 			b.call(0, 0, false)
 			b.call(0, 0, false)
 			b.check()
+		})
+	}
+	// endpoint 1 blocked while endpoint 0 stays active; >= 30 s later a check queues the probe; the probe is answered
+	// with a non-zero return code (server-side error / framework code): an answer, so endpoint 1 comes back
+	for _, code := range []int64{5, -3, -7} {
+		code := code
+		mk(fmt.Sprintf("e2e-probe-answered-with-error-code(%d)", code), func(b *c15B) {
+			b.refresh([]int{0, 1})
+			for i := 0; i < 4; i++ {
+				b.call(0, 0, false)
+			}
+			b.up(1, false)
+			for i := 0; i < 11; i++ {
+				b.call(0, 0, false)
+			}
+			b.adv(5)
+			b.check()
+			for i := 0; i < 3; i++ {
+				b.call(0, 0, false)
+			}
+			b.up(1, true)
+			b.code(1, code)
+			b.adv(30)
+			b.check()
+			b.call(0, 0, false) // the probe
+			b.check()
+			for i := 0; i < 12; i++ {
+				b.call(0, 0, false) // error-code answers on ordinary calls: endpoint 1 stays in rotation
+			}
+			b.adv(6)
+			b.check()
+			b.adv(61)
+			b.check()
+			b.call(0, 0, false)
+			b.call(0, 0, false)
 		})
 	}
 	mk("e2e-all-blocked", func(b *c15B) {
